@@ -332,6 +332,13 @@ func (d *DRBG) Read(p []byte) (int, error) {
 	return n, nil
 }
 
+// Position identifies how much of the stream has been consumed.
+func (d *DRBG) Position() uint64 {
+	d.mu.Lock()
+	defer d.mu.Unlock()
+	return d.ctr*32 - uint64(len(d.buf))
+}
+
 // Bytes derives n generic bytes from a label.
 func Bytes(label string, n int) []byte {
 	b := make([]byte, n)
